@@ -66,6 +66,8 @@ for n in ("clock_gettime", "gettimeofday", "clock_getres"):
 for n in ("mmap", "mprotect"):
     SINKS[n] = (B["FFI_JIT"], "FFI_JIT")
 GVAR_SINKS = {"environ": (B["ENV"], "ENV")}
+# in-tree primitives that read / write raw memory on behalf of Janet code: :string and :ptr fields are followed as C pointers
+INTERNAL_SINKS = {"janet_ffi_read_one": (B["FFI_USE"], "FFI_USE"), "janet_ffi_write_one": (B["FFI_USE"], "FFI_USE")}
 
 BENIGN = ("getcwd isatty time setlocale umask getpid read write close recv send recvfrom sendto accept accept4 "
           "waitpid kill shutdown getsockname getpeername setsockopt getsockopt fcntl dup dup2 pipe fileno fdopen fclose "
@@ -304,6 +306,18 @@ def _guard_rule(chk, prog):
         chk.analysed(fn)
         for (n, tgt, kind) in cg.sites.get(fid, ()):
             names = []
+            if n.callee in INTERNAL_SINKS:
+                mask, cls = INTERNAL_SINKS[n.callee]
+                if n.id in states:
+                    chk.instance(rule)
+                    if holds(states[n.id], mask):
+                        guarded_bits |= mask
+                        chk.ok(rule, "%s: %s [%s] guarded" % (fn.name, n.callee, cls))
+                    else:
+                        chk.violation(rule, fn.tu.name, fn.name, n.callee, n.loc,
+                                      "%s() [%s] converts between Janet values and raw memory (it follows pointers found in the data) and is "
+                                      "reachable from Janet code without janet_sandbox_assert of that capability on every path; e.g. via %s" % (
+                                          n.callee, cls, " -> ".join(_chain(G, fid))), _chain(G, fid))
             if n.callee and prog.is_external(n.callee):
                 names = [n.callee]
             elif kind != "direct":
